@@ -62,9 +62,11 @@ def _read_coordinates(lit: LineIterator, result: dict[str]) -> tuple[NDArray[int
     if coordinates is None:
         coordinates = np.zeros((natom, 3), float)
     for i in range(natom):
-        words = next(lit).split()
-        numbers[i] = int(float(words[1]))
-        coordinates[i] = np.array([float(elem) for elem in words[2:5]]) * angstrom
+        # Fixed-width fields (1X,A10,F5.1,3F15.10), which touch for coordinates <= -100 angstrom.
+        line = next(lit)
+        numbers[i] = int(float(line[11:16]))
+        coordinates[i] = np.array([float(line[16:31]), float(line[31:46]), float(line[46:61])])
+        coordinates[i] *= angstrom
     return numbers, coordinates
 
 
